@@ -1,4 +1,5 @@
 import Op2Model.Res
+import Op2Model.Vol
 import Op2Proofs.Props.C19
 /-!
 # C17 — name lookup and resource resolution are case-blind, consistent, loose-file-first
@@ -279,5 +280,29 @@ def okIs (r : Except Err (Option Bytes)) (b : Option Bytes) : Bool := match r wi
 example : okIs (getStream exLayout [97, 46, 116, 120, 116] true) (some [9]) = true ∧
     okIs (getStream exLayout [65, 46, 116, 120, 116] true) (some [1, 2, 3]) = true ∧
     okIs (getStream exLayout [65, 46, 116, 120, 116] false) none = true := by decide
+
+/-! ## out-of-range indices on the VOL object itself
+
+`Vol.View` (the opened archive of `Op2Model/Vol.lean`, tied to `VolFile` by the C02/C05/C17 runs) distinguishes the member
+count from the number of index slots: a foreign archive may have unused trailing slots, and an index that names such a slot
+is as out of range as any other. -/
+
+theorem C17_vol_out_of_range (v : Vol.View) (i : Nat) (h : v.count ≤ i) :
+    v.name i = .error (.err .bounds) ∧ v.size i = .error (.err .bounds) ∧ v.kind i = .error (.err .bounds) ∧
+    v.stream i = .error (.err .bounds) ∧ v.extract i = .error (.err .bounds) ∧ v.lzhLoad i = .error (.err .bounds) := by
+  have hv : v.verify i = .error (.err .bounds) := by unfold Vol.View.verify; rw [if_pos h]
+  have he : v.entry i = .error (.err .bounds) := by unfold Vol.View.entry; rw [hv]
+  have hb : v.blockHeader i = .error (.err .bounds) := by unfold Vol.View.blockHeader; rw [he]
+  refine ⟨?_, ?_, ?_, ?_, ?_, ?_⟩
+  · unfold Vol.View.name; rw [hv]
+  · unfold Vol.View.size; rw [he]; rfl
+  · unfold Vol.View.kind; rw [he]; rfl
+  · unfold Vol.View.stream; rw [hb]
+  · unfold Vol.View.extract; rw [he]
+  · unfold Vol.View.lzhLoad; rw [hb]
+
+/-- non-vacuity: more slots than members -/
+example : ∃ v : Vol.View, v.count = 1 ∧ v.entries.length = 3 ∧ v.size 1 = .error (.err .bounds) :=
+  ⟨{ file := [], names := [[97]], count := 1, entries := [default, default, default] }, rfl, rfl, rfl⟩
 
 end Op2.Props.C17
